@@ -66,6 +66,9 @@ def lib_atom(atom, n):
         return h.Isometry.elliptic(n, blk)
     if k == "origin_to":
         return h.Point(np.array(atom["x"], dtype=float)).origin_to()
+    if k == "refl_sub":
+        # reflection across the hyperplane given by n ideal points (HypIsoHist.tla)
+        return h.Subspace(np.array(atom["ideal"], dtype=float)).reflection_across()
     if k == "sl2":
         return h.sl2_iso(np.array(atom["A"], dtype=float))
     if k == "cox":
